@@ -22,7 +22,9 @@ Record txobj := mkObj {
   executable : bool;
   price : option pricing;      (* TxObject.pricing (nil until published) *)
   time_added : N;
-  local_ : bool                (* source == local (AddLocal): exempt from lifetime and pool limits *)
+  local_ : bool;               (* source == local (AddLocal): exempt from lifetime and pool limits *)
+  oid : N                      (* identity of the Go object (the *TxObject pointer): a tx removed and submitted again
+                                  is a NEW object under the same hash *)
 }.
 
 (* Go maps: absent key = None *)
@@ -38,9 +40,9 @@ Definition empty_pool : pool := mkPool [] aempty aempty.
 Definition find_obj (h : N) (l : list txobj) : option txobj := find (fun o => hash o =? h) l.
 Definition remove_obj (h : N) (l : list txobj) : list txobj := filter (fun o => negb (hash o =? h)) l.
 Definition set_exec (o : txobj) (e : bool) : txobj :=
-  mkObj (hash o) (origin o) (delegator o) e (price o) (time_added o) (local_ o).
+  mkObj (hash o) (origin o) (delegator o) e (price o) (time_added o) (local_ o) (oid o).
 Definition set_price (o : txobj) (p : option pricing) : txobj :=
-  mkObj (hash o) (origin o) (delegator o) (executable o) p (time_added o) (local_ o).
+  mkObj (hash o) (origin o) (delegator o) (executable o) p (time_added o) (local_ o) (oid o).
 Definition replace_obj (o' : txobj) (l : list txobj) : list txobj :=
   map (fun o => if hash o =? hash o' then o' else o) l.
 
@@ -97,12 +99,14 @@ Definition remove_by_hash (p : pool) (h : N) : pool * bool :=
     (mkPool (remove_obj h (objs p)) q2 c2, true)
   end.
 
-(* txObjectMap.promote *)
-Definition promote (p : pool) (h : N) : pool * bool :=
+(* txObjectMap.promote(txObj), as repaired (finding F12): the caller (wash) hands in the object it captured when
+   the wash started; the promotion happens only if THAT object is still the one pooled under its hash. *)
+Definition promote (p : pool) (h : N) (id : N) : pool * bool :=
   match find_obj h (objs p) with
   | None => (p, false)
   | Some o =>
-    if executable o then (p, true)
+    if negb (oid o =? id) then (p, false)
+    else if executable o then (p, true)
     else
       let o' := set_exec o true in
       let c2 := match price o with
@@ -110,6 +114,22 @@ Definition promote (p : pool) (h : N) : pool * bool :=
                 | None => cost p
                 end in
       (mkPool (replace_obj o' (objs p)) (quota p) c2, true)
+  end.
+
+(* promote as it was before the repair: presence is tested by hash only, then the CAPTURED object `a` (not
+   necessarily the pooled one) is marked executable and its cost is added.  When a is the pooled object this is
+   promote; when the tx was removed and added again in between, a is stale and its cost is counted on top of the
+   new object's. Used only to state the finding (bookkeeping_unguarded_refuted). *)
+Definition promote_unguarded (p : pool) (a : txobj) : pool * bool :=
+  match find_obj (hash a) (objs p) with
+  | None => (p, false)
+  | Some o =>
+    if oid o =? oid a then promote p (hash a) (oid a)
+    else if executable a then (p, true)
+    else match price a with
+         | Some pc => (mkPool (objs p) (quota p) (aset (cost p) (payer pc) (aget (cost p) (payer pc) + pcost pc)), true)
+         | None => (p, true)
+         end
   end.
 
 (* txObjectMap.Fill : no limit check, no cost *)
@@ -126,34 +146,36 @@ Fixpoint fill (p : pool) (l : list txobj) : pool :=
     end
   end.
 
-(* TxObject.setPricing as used by wash: a fresh snapshot for an object that is not executable, or (refresh) a
-   snapshot keeping payer and cost.  Anything else is not performed by the code and is a no-op here. *)
-Definition set_pricing (p : pool) (h : N) (pr : pricing) : pool :=
+(* TxObject.setPricing as used by wash, on the object wash captured (identity id): a fresh snapshot for an object that
+   is not executable, or (refresh) a snapshot keeping payer and cost.  Anything else is not performed by the code and
+   is a no-op here; writing to a captured object that is no longer the pooled one does not touch the pool. *)
+Definition set_pricing (p : pool) (h : N) (id : N) (pr : pricing) : pool :=
   match find_obj h (objs p) with
   | None => p
   | Some o =>
-    let allowed := negb (executable o) ||
-                   match price o with
-                   | Some old => (payer old =? payer pr) && (pcost old =? pcost pr)
-                   | None => false
-                   end in
+    let allowed := (oid o =? id) &&
+                   (negb (executable o) ||
+                    match price o with
+                    | Some old => (payer old =? payer pr) && (pcost old =? pcost pr)
+                    | None => false
+                    end) in
     if allowed then mkPool (replace_obj (set_price o (Some pr)) (objs p)) (quota p) (cost p) else p
   end.
 
 Inductive step :=
 | SAdd (o : txobj) (exe : bool) (pr : option pricing) (limit : N) (balance : N -> N)
 | SRemove (h : N)
-| SPromote (h : N)
+| SPromote (h : N) (id : N)
 | SFill (l : list txobj)
-| SSetPricing (h : N) (pr : pricing).
+| SSetPricing (h : N) (id : N) (pr : pricing).
 
 Definition pool_step (p : pool) (s : step) : pool :=
   match s with
   | SAdd o exe pr limit balance => fst (add p o exe pr limit balance)
   | SRemove h => fst (remove_by_hash p h)
-  | SPromote h => fst (promote p h)
+  | SPromote h id => fst (promote p h id)
   | SFill l => fill p l
-  | SSetPricing h pr => set_pricing p h pr
+  | SSetPricing h id pr => set_pricing p h id pr
   end.
 
 Definition run (steps : list step) : pool := fold_left pool_step steps empty_pool.
@@ -204,7 +226,7 @@ Fixpoint publish (p : pool) (energy : N -> N) (cands : list txobj) : pool * list
         if energy (payer pc) <? aget (cost p) (payer pc) + pcost pc then
           let '(p', pub, bad) := publish p energy t in (p', pub, hash o :: bad)
         else
-          let (p1, ok) := promote p (hash o) in
+          let (p1, ok) := promote p (hash o) (oid o) in
           if ok then let '(p', pub, bad) := publish p1 energy t in (p', o :: pub, bad)
           else publish p1 energy t
       end
